@@ -1,6 +1,8 @@
 // C07 digests vs libcrypto, C08 HMAC / tag layout / tag comparison.
 #include "ctx.hpp"
 #include <algorithm>
+#include <atomic>
+#include <thread>
 #include "hashmaster.h"
 
 #ifdef WENCRY_VERIF_HBUF_UNITS
@@ -129,6 +131,56 @@ void run_C07(Ctx &cx) {
             if (cx.idx % 4099 == 0) cx.rep.sample(desc);
           }
         }
+    // independent hasher objects used at the same time on several threads: each thread owns its objects and its
+    // messages, nothing is shared by the harness, and every digest is compared with the value computed beforehand
+    for (int round = 0; round < (cx.thorough ? 48 : 12); round++) {
+      if (!cx.take()) continue;
+      vh::Rng r = cx.case_rng();
+      int alg = round % 3, NT = 2 + (int)r.below(5), entry = (round / 3) % 2; // string / file buffer
+      const int NM = 24, ITER = cx.thorough ? 1500 : 400;
+      std::vector<std::vector<bytes>> msgs(NT), want(NT);
+      for (int t = 0; t < NT; t++)
+        for (int q = 0; q < NM; q++) {
+          static const size_t lens[] = {0, 1, 3, 55, 56, 57, 63, 64, 65, 119, 120, 128};
+          size_t n = r.chance(60) ? lens[r.below(12)] : (size_t)r.below(entry ? 3 * R + 70 : 300);
+          msgs[t].push_back(r.bytes_(n));
+          want[t].push_back(ref::hash(alg, msgs[t].back().data(), n));
+        }
+      vh::J j;
+      j.num("alg", alg).num("threads", NT).num("entry", entry).num("iterations", ITER).str("rng", std::to_string(vh::mix(cx.seed, (uint64_t)cx.idx)));
+      std::string desc = j.done();
+      cx.begin(desc);
+      std::atomic<int> ready{0};
+      std::atomic<long> wrong{0}, done{0};
+      std::atomic<long> first_bad{-1};
+      std::vector<std::thread> th;
+      for (int t = 0; t < NT; t++)
+        th.emplace_back([&, t]() {
+          ready++;
+          while (ready.load() < NT) {}
+          for (int it = 0; it < ITER; it++) {
+            int q = (it * 7 + t) % NM;
+            bytes got = entry == 0 ? real_string_hash(alg, msgs[t][q]) : real_file_hash(alg, msgs[t][q], 1, 0, nullptr);
+            done++;
+            if (got != want[t][q]) {
+              wrong++;
+              long exp = -1;
+              first_bad.compare_exchange_strong(exp, (long)t * 1000000 + it);
+            }
+          }
+        });
+      for (auto &x : th) x.join();
+      cx.rep.count("digests_compared", done.load());
+      cx.rep.count("digests_on_concurrent_threads", done.load());
+      if (wrong.load()) {
+        const char *an[] = {"sha1", "md5", "sha256"};
+        vh::J d;
+        d.num("wrong", wrong.load()).num("of", done.load()).num("threads", NT).num("first_bad_thread", first_bad.load() / 1000000).num("first_bad_iteration", first_bad.load() % 1000000);
+        cx.rep.violation(std::string("C07|digest-mismatch|") + an[alg] + "|concurrent-independent-objects|" + (entry ? "filebuf" : "string"),
+                         "digests computed at the same time by independent hasher objects on several threads differ from libcrypto", d.done());
+      } else
+        cx.rep.dist("class", vh::tuple_hash({alg, entry, NT, 9999}));
+    }
     return;
   }
   // sub == "large": production-size and counter-wrap messages
